@@ -98,8 +98,9 @@ static void randomSet(vh::Rng & r, int maxpts, vh::Out & out)
   const bool isFloat = type % 2 == 1;
   g_base = 0; g_scale = 1;
   if (m <= 100 && r.coin(1, 3)) {
-    int st = (int)r.range(0, 2);
-    if (st == 0) {g_scale = 1.0 / 64; g_base = isFloat ? 1024.0 : 1048576.0;}       // a frame far from the origin (UTM-like)
+    int st = (int)r.range(0, 3);
+    if (st == 3) {g_scale = isFloat ? 1024.0 : std::ldexp(1.0, 56);}                  // astronomically large coordinates: squared distances beyond 1e38 (double)
+    else if (st == 0) {g_scale = 1.0 / 64; g_base = isFloat ? 1024.0 : 1048576.0;}  // a frame far from the origin (UTM-like)
     else if (st == 1) {g_scale = std::ldexp(1.0, -24);}                               // a micro-scale cloud
     else {g_scale = std::ldexp(1.0, -21); g_base = 4.0;}                              // a tight cluster away from the origin
     if (isFloat && g_base != 0 && m > 60) {g_base = 0;}                               // keep float coordinates exactly representable
